@@ -476,10 +476,34 @@ func TestC18_Lifecycle(t *testing.T) {
 				}
 				locked = true
 			},
-			"refreshInvalid": func(t *rapid.T) {
-				ops = append(ops, "refresh-invalid")
-				_ = log.Refresh(map[string]string{"logger.lt.type": "Logger"})
+			"refreshInvalidEarly": func(t *rapid.T) {
+				// rejected before anything is built (no appenders section / nothing at all): such a call
+				// changes nothing - in particular registration stays possible if it was
+				ops = append(ops, "refresh-invalid-early")
+				m := map[string]string{"logger.lt.type": "Logger"}
+				if rapid.Bool().Draw(t, "emptyConfig") {
+					m = map[string]string{}
+				}
+				if err := log.Refresh(m); err == nil {
+					failCase(t, "", "Refresh accepted a configuration without appenders")
+				}
+			},
+			"refreshInvalidLate": func(t *rapid.T) {
+				ops = append(ops, "refresh-invalid-late")
+				_ = log.Refresh(map[string]string{"appender.d.type": "Discard", "logger.lt.type": "Logger", "logger.lt.tags": "_c18l_x", "logger.lt.appenderRef.ref": "ghost"})
 				locked = true
+			},
+			"registerWhileLocked": func(t *rapid.T) {
+				if !locked {
+					t.Skip("only between a Refresh and the next Destroy")
+				}
+				// refused (that is property C16's business) - and a refused registration registers nothing
+				name := "c18lk" + strings.Join(rapid.SliceOfN(seg, 1, 2).Draw(t, "lsegs"), "_")
+				ops = append(ops, "register-while-locked "+name)
+				_ = vk.Catch(func() { log.RegisterTag(name) })
+				if _, ok := model[name]; !ok {
+					checkRegistry(t, "after the history ["+strings.Join(ops, "; ")+"]")
+				}
 			},
 			"destroy": func(t *rapid.T) {
 				ops = append(ops, "destroy")
